@@ -93,6 +93,25 @@ func GenDataset(t *rapid.T) Dataset {
 		}
 	}
 	d.Files["map.txt"] = mp.String()
+	// a map whose new names are current names of other tips (cyclic shift), and a tree whose tip
+	// labels look like the indices of a translate table
+	var sh strings.Builder
+	numOf := map[string]string{}
+	perm := rapid.Permutation(tips).Draw(t, "numperm")
+	for i, n := range tips {
+		sh.WriteString(n + "\t" + tips[(i+1)%len(tips)] + "\n")
+		numOf[perm[i]] = strconv.Itoa(i)
+	}
+	d.Files["shiftmap.txt"] = sh.String()
+	var numtrees []*ref.Node
+	for _, m := range trees {
+		c := m.Clone()
+		for _, tip := range c.TipNodes() {
+			tip.Name = numOf[tip.Name]
+		}
+		numtrees = append(numtrees, c)
+	}
+	d.Files["numtrees.nw"] = write(numtrees)
 	var st, fa, pr strings.Builder
 	for _, n := range tips {
 		st.WriteString(n + "," + rapid.SampledFrom([]string{"A", "B", "C", "D"}).Draw(t, "state") + "\n")
@@ -281,6 +300,9 @@ func Templates() []Template {
 		T("reformat-phyloxml", "trees.nw", "reformat", "phyloxml"),
 		T("rename-map", "tree.nw", "rename", "-m", "map.txt"),
 		T("rename-map-revert", "tree.nw", "rename", "-m", "map.txt", "-r"),
+		T("rename-map-shift", "trees.nw", "rename", "-m", "shiftmap.txt"),
+		T("reformat-nexus-translate-numeric", "numtrees.nw", "reformat", "nexus", "--translate"),
+		T("reformat-newick-from-numeric-nexus", "numtrees.nw", "reformat", "nexus", "--translate", "-o", "num.nex").out("num.nex"),
 		T("rename-auto-map", "trees.nw", "rename", "-a", "-m", "outmap.txt", "-l", "8").out("outmap.txt"),
 		T("rename-auto-internal", "rooted.nw", "rename", "-a", "--internal", "--tips=false", "-m", "outmap.txt").out("outmap.txt"),
 		T("rename-regexp", "tree.nw", "rename", "-e", "^(.)", "-b", "Z$1", "-m", "outmap.txt").out("outmap.txt"),
